@@ -17,6 +17,20 @@ CLAIMED = {
              "NOT decided. Assumes std::vector move leaves the source empty and that users do not mutate the map through "
              "the non-const accessor.",
     ),
+    "C12": dict(
+        category="other",
+        design_ref="DESIGN.md section 3 / C12",
+        technique="static analysis: special-member typestate over the clang CFG for pointer-owning classes (found from "
+                  "their destructors), must-pass-through rule for the parent back-link, clone()/copy-forwarding shape rules",
+        text="Decides the ownership and linking clauses visible in code shape: (R1) for PDU and Packet, copy never aliases, "
+             "copy-assign is self-assignment safe, releases the old tree and re-establishes the pointer on every path incl. a "
+             "source without layers, move leaves the source null; (R2) every store of a child into inner_pdu_ is followed "
+             "on all paths by parent_pdu(this), release clears the parent; (R3) clone() of every instantiable concrete layer "
+             "class returns new K(*this); (R4) user-declared copy members forward to the PDU base. Two genuine defects "
+             "found this way were repaired with fix: commits (see known_findings.json 'fixed').",
+        note="Deep equality of field values of copies and 'freed exactly once' over arbitrary programs are not decided; "
+             "TCPStream's fragment maps (legacy API) are outside R1's structural owner detection.",
+    ),
     "C13": dict(
         category="proof",
         design_ref="DESIGN.md section 3 / C13",
